@@ -27,8 +27,24 @@ Section Pipeline.
     | SLine o v true => o = OpEq \/ o = OpNotEq
     | SPattern _ | SLineFormat _ | SUnpack | SDecolorize => True
     | SDrop ls [] | SKeep ls [] | SDistinct ls => ls <> []
+    | SJson _ [] | SLogfmt _ [] => True
+    | SLabelFormat rs ts => (rs <> [] \/ ts <> []) /\ NoDup (map snd rs ++ map fst ts)
     | _ => False
     end.
+
+  Fixpoint print_tmpls (ts : list (bytes * bytes)) : list token :=
+    match ts with
+    | (dst, tm) :: ts' => plain TIdent dst :: plain TEq [] :: str_tok tm :: match ts' with [] => [] | _ => plain TComma [] :: print_tmpls ts' end
+    | [] => []
+    end.
+  Fixpoint print_lf (rs ts : list (bytes * bytes)) : list token :=
+    match rs with
+    | (src, dst) :: rs' =>
+        plain TIdent dst :: plain TEq [] :: plain TIdent src ::
+        match rs', ts with [], [] => [] | _, _ => plain TComma [] :: print_lf rs' ts end
+    | [] => print_tmpls ts
+    end.
+  Definition lf_dsts (rs ts : list (bytes * bytes)) : list bytes := map snd rs ++ map fst ts.
 
   Definition print_stage (s : stage) : list token :=
     match s with
@@ -41,6 +57,9 @@ Section Pipeline.
     | SDrop ls _ => plain TPipe [] :: plain TDrop [] :: print_names ls
     | SKeep ls _ => plain TPipe [] :: plain TKeep [] :: print_names ls
     | SDistinct ls => plain TPipe [] :: plain TDistinct [] :: print_names ls
+    | SJson ls _ => plain TPipe [] :: plain TJSON [] :: print_names ls
+    | SLogfmt ls _ => plain TPipe [] :: plain TLogfmt [] :: print_names ls
+    | SLabelFormat rs ts => plain TPipe [] :: plain TLabelFormat [] :: print_lf rs ts
     | _ => []
     end.
 
@@ -90,23 +109,108 @@ Section Pipeline.
       rewrite <- app_assoc. cbn [app]. f_equal. f_equal. cbn [rev]. rewrite <- !app_assoc. reflexivity.
   Qed.
 
+  (** label lists of json / logfmt (no extraction expressions) *)
+  Definition after_names (r : list token) : Prop :=
+    match r with t :: _ => is_ty t TIdent = false /\ is_ty t TComma = false /\ is_ty t TEq = false | [] => True end.
+
+  Lemma label_extraction_print ls : forall fuel acc p r, (length ls < fuel)%nat -> after_names r ->
+    label_extraction fuel acc [] {| prev := p; rest := print_names ls ++ r |} =
+      POk (acc ++ ls, []) {| prev := rev (print_names ls) ++ p; rest := r |}.
+  Proof.
+    induction ls as [|l t IH]; intros fuel acc p r Hf Hr; (destruct fuel as [|f]; [cbn in Hf; lia|]).
+    - cbn [print_names app rev label_extraction]. unfold bind at 1, peek at 1. cbn [rest]. rewrite app_nil_r.
+      destruct r as [|t0 r']; [reflexivity|]. cbn in Hr. destruct Hr as [H1 _]. rewrite H1. reflexivity.
+    - destruct t as [|l2 t'].
+      + cbn [print_names app label_extraction]. unfold bind at 1, peek at 1. cbn [rest]. cbn.
+        destruct f as [|f']; [cbn in Hf; lia|].
+        destruct r as [|t0 r']; cbn.
+        * reflexivity.
+        * cbn in Hr. destruct Hr as [H1 [H2 H3]]. rewrite H2, H3. cbn. rewrite H1. reflexivity.
+      + change (print_names (l :: l2 :: t')) with (plain TIdent l :: plain TComma [] :: print_names (l2 :: t')).
+        remember (print_names (l2 :: t')) as pn eqn:Epn.
+        assert (Hh : exists tl, pn ++ r = plain TIdent l2 :: tl) by (subst pn; destruct t'; cbn; eauto).
+        destruct Hh as [tl Htl].
+        cbn [app label_extraction]. unfold bind at 1, peek at 1. cbn [rest]. cbn. rewrite Htl. cbn. rewrite <- Htl. subst pn.
+        rewrite IH; [|cbn in *; lia|exact Hr]. rewrite <- !app_assoc. cbn [app]. f_equal.
+  Qed.
+
+  (** label_format: renames first, then templates, destinations pairwise distinct *)
+  Lemma existsb_not_in l seen : ~ In l seen -> existsb (bytes_eqb l) seen = false.
+  Proof.
+    induction seen as [|x t IH]; intro H; cbn; [reflexivity|].
+    destruct (bytes_eqb l x) eqn:E; [apply bytes_eqb_eq in E; subst; exfalso; apply H; left; reflexivity|].
+    apply IH. intro C. apply H. right. exact C.
+  Qed.
+
+  Ltac fin := solve [f_equal | f_equal; f_equal; cbn [rev]; rewrite <- ?app_assoc; cbn [app]; rewrite <- ?app_assoc; reflexivity | reflexivity].
+  Lemma label_format_tmpls_print ts : forall fuel seen rs0 ts0 p r, ts <> [] -> (length ts <= fuel)%nat -> no_comma r ->
+    NoDup (map fst ts) -> (forall d, In d (map fst ts) -> ~ In d seen) ->
+    label_format_loop fuel seen rs0 ts0 {| prev := p; rest := print_tmpls ts ++ r |} =
+      POk (SLabelFormat rs0 (ts0 ++ ts)) {| prev := rev (print_tmpls ts) ++ p; rest := r |}.
+  Proof.
+    induction ts as [|[dst tm] t IH]; intros fuel seen rs0 ts0 p r Hne Hf Hr Hnd Hseen; [congruence|].
+    destruct fuel as [|f]; [cbn in Hf; lia|].
+    assert (Hd : existsb (bytes_eqb dst) seen = false) by (apply existsb_not_in; apply Hseen; left; reflexivity).
+    inversion Hnd as [|? ? Hnotin Hnd']; subst.
+    destruct t as [|[dst2 tm2] t'].
+    - cbn [print_tmpls app label_format_loop]. cbn. rewrite Hd. cbn.
+      destruct r as [|t0 r']; cbn; [reflexivity|]. cbn in Hr. rewrite Hr. reflexivity.
+    - change (print_tmpls ((dst, tm) :: (dst2, tm2) :: t')) with (plain TIdent dst :: plain TEq [] :: str_tok tm :: plain TComma [] :: print_tmpls ((dst2, tm2) :: t')).
+      remember (print_tmpls ((dst2, tm2) :: t')) as pn eqn:Epn.
+      cbn [app label_format_loop]. cbn. rewrite Hd. cbn. subst pn.
+      rewrite IH; [|discriminate|cbn in *; lia|exact Hr|exact Hnd'|].
+      + rewrite <- !app_assoc. cbn [app]. fin.
+      + intros d Hin [C|C]; [subst d; apply Hnotin; exact Hin|]. apply (Hseen d); [right; exact Hin|exact C].
+  Qed.
+
+  Lemma label_format_print rs : forall ts fuel seen rs0 p r, (rs <> [] \/ ts <> []) -> (length rs + length ts <= fuel)%nat -> no_comma r ->
+    NoDup (lf_dsts rs ts) -> (forall d, In d (lf_dsts rs ts) -> ~ In d seen) ->
+    label_format_loop fuel seen rs0 [] {| prev := p; rest := print_lf rs ts ++ r |} =
+      POk (SLabelFormat (rs0 ++ rs) ts) {| prev := rev (print_lf rs ts) ++ p; rest := r |}.
+  Proof.
+    induction rs as [|[src dst] t IH]; intros ts fuel seen rs0 p r Hne Hf Hr Hnd Hseen.
+    - rewrite app_nil_r. destruct Hne as [C|Hne]; [congruence|].
+      apply (label_format_tmpls_print ts fuel seen rs0 [] p r Hne); [cbn in Hf; lia|exact Hr|exact Hnd|exact Hseen].
+    - destruct fuel as [|f]; [cbn in Hf; lia|].
+      assert (Hd : existsb (bytes_eqb dst) seen = false) by (apply existsb_not_in; apply Hseen; left; reflexivity).
+      cbn [lf_dsts map app snd] in Hnd. inversion Hnd as [|? ? Hnotin Hnd']; subst.
+      destruct t as [|p2 t']; [destruct ts as [|q ts']|].
+      + cbn [print_lf app label_format_loop]. cbn. rewrite Hd. cbn.
+        destruct r as [|t0 r']; cbn; [reflexivity|]. cbn in Hr. rewrite Hr. reflexivity.
+      + cbn [print_lf]. cbn [app label_format_loop]. cbn. rewrite Hd. cbn.
+        rewrite (label_format_tmpls_print (q :: ts') f (dst :: seen) (rs0 ++ [(src, dst)]) [] _ r); [|discriminate|cbn in *; lia|exact Hr|exact Hnd'|].
+        * cbn [app]. rewrite <- !app_assoc. cbn [app]. fin.
+        * intros d Hin [C|C]; [subst d; apply Hnotin; exact Hin|]. apply (Hseen d); [right; exact Hin|exact C].
+      + cbn [print_lf]. cbn [app label_format_loop]. cbn. rewrite Hd. cbn.
+        rewrite (IH ts f (dst :: seen) (rs0 ++ [(src, dst)]) _ r); [|left; discriminate|cbn in *; lia|exact Hr|exact Hnd'|].
+        * rewrite <- !app_assoc. cbn [app]. fin.
+        * intros d Hin [C|C]; [subst d; apply Hnotin; exact Hin|]. apply (Hseen d); [right; exact Hin|exact C].
+  Qed.
+
   (** what may follow stage [s]: never a comma; after drop / keep not one of = != =~ !~ (`| drop a != "x"` is read as a drop
       matcher: the textual ambiguity is real, the generators avoid it the same way) *)
   Definition follows_ok (s : stage) (r : list token) : Prop :=
     no_comma r /\
     match s with
     | SDrop _ _ | SKeep _ _ => forall t0 r', r = t0 :: r' -> (is_ty t0 TEq || is_ty t0 TNotEq || is_ty t0 TRe || is_ty t0 TNotRe) = false
+    | SJson _ _ | SLogfmt _ _ => after_names r      (* `| json a b` reads b as a second label, `| json a = "x"` as an extraction *)
     | _ => True
     end.
 
-  Definition stage_size (s : stage) : nat := match s with SDrop ls _ | SKeep ls _ | SDistinct ls => length ls | _ => 0 end.
+  Definition stage_size (s : stage) : nat :=
+    match s with
+    | SDrop ls _ | SKeep ls _ | SDistinct ls => length ls
+    | SJson ls _ | SLogfmt ls _ => S (length ls)
+    | SLabelFormat rs ts => length rs + length ts
+    | _ => 0
+    end.
 
   Lemma stage_step s : forall f au acc p r, simple_stage s -> (stage_size s <= f)%nat -> follows_ok s r ->
     parse_pipeline (S f) au acc {| prev := p; rest := print_stage s ++ r |} =
     parse_pipeline f au (acc ++ [s]) {| prev := rev (print_stage s) ++ p; rest := r |}.
   Proof.
     intros f au acc p r Hs Hf [Hnc Hfo].
-    destruct s as [o v ip| | | | |pt| |lt| | | |ls ms|ls ms|ls]; cbn in Hs; try contradiction.
+    destruct s as [o v ip|jl je|ll le| | |pt| |lt| | |rs ts|ls ms|ls ms|ls]; cbn in Hs; try contradiction.
     - (* line filter *)
       destruct ip.
       + destruct Hs as [-> | ->]; cbn; reflexivity.
@@ -115,10 +219,19 @@ Section Pipeline.
         * reflexivity.
         * destruct (re_names v) eqn:E; [|congruence]. cbn. unfold bind, next, peek, parse_string_tok, consume_text; cbn. rewrite E. reflexivity.
         * destruct (re_names v) eqn:E; [|congruence]. cbn. unfold bind, next, peek, parse_string_tok, consume_text; cbn. rewrite E. reflexivity.
+    - destruct je; [|contradiction]. cbn [print_stage app parse_pipeline]. cbn [stage_size] in Hf.
+      unfold bind at 1, peek at 1. cbn [rest]. cbn.
+      unfold bind at 1. rewrite (label_extraction_print jl f [] _ r); [|lia|exact Hfo]. cbn [fst snd app]. rewrite <- !app_assoc. reflexivity.
+    - destruct le; [|contradiction]. cbn [print_stage app parse_pipeline]. cbn [stage_size] in Hf.
+      unfold bind at 1, peek at 1. cbn [rest]. cbn.
+      unfold bind at 1. rewrite (label_extraction_print ll f [] _ r); [|lia|exact Hfo]. cbn [fst snd app]. rewrite <- !app_assoc. reflexivity.
     - cbn. reflexivity.
     - cbn. reflexivity.
     - cbn. reflexivity.
     - cbn. reflexivity.
+    - destruct Hs as [Hne Hnd]. cbn [print_stage app parse_pipeline]. cbn [stage_size] in Hf.
+      unfold bind at 1, peek at 1. cbn [rest]. cbn.
+      unfold bind at 1. rewrite (label_format_print rs ts f [] [] _ r Hne Hf Hnc Hnd); [|intros d _ []]. cbn [app]. rewrite <- !app_assoc. reflexivity.
     - destruct ms; [|contradiction]. cbn [print_stage app parse_pipeline]. cbn [stage_size] in Hf.
       unfold bind at 1, peek at 1. cbn [rest]. cbn.
       unfold bind at 1. rewrite (labels_and_matchers_print ls f [] _ r Hs Hf Hnc Hfo). cbn [fst snd app]. rewrite <- !app_assoc. reflexivity.
